@@ -153,12 +153,13 @@ pub fn miss_fn(field: &str, loc: ValuePointerRef) -> Foreign { bump(5); Foreign(
 #[derive(Deserr)]
 #[deserr(error = Rec, deny_unknown_fields = deny_fn)]
 pub struct Fns5 {
-    #[deserr(missing_field_error = miss_fn)]
+    #[deserr(missing_field_error = miss_fn, rename = "zzzz")]
     pub aaaa: Leaf,
     pub bbbb: Option<Leaf>,
 }
 impl Viewed for Fns5 { fn slots(&self) -> [u64; MAXF] { [lv(&self.aaaa), ov(&self.bbbb), 0, 0, 0, 0] } }
-pub static D_FNS5: [&str; 4] = ["aaaa", "bbbb", "cccc", "Aaaa"];
+// aaaa is renamed zzzz: the user function must be told the effective key, never the identifier
+pub static D_FNS5: [&str; 5] = ["zzzz", "bbbb", "cccc", "Aaaa", "aaaa"];
 pub static S_FNS5: StructDesc = StructDesc { fields: &[
     FieldDesc { key: 0, presence: Presence::Required, ty: FTy::Leaf, missing_fn: true, conv: Conv::None, map: None },
     FieldDesc { key: 1, presence: Presence::Required, ty: FTy::OptLeaf, missing_fn: false, conv: Conv::None, map: None },
@@ -218,7 +219,7 @@ pub fn derive_cont9() {
 
 // ---- T6: internally tagged enum ---------------------------------------------------------------------------
 #[derive(Deserr)]
-#[deserr(tag = "type", rename_all = camelCase)]
+#[deserr(tag = "t_ag", rename_all = camelCase)]
 pub enum Tagged {
     Unit,
     #[deserr(rename = "bbbb")]
@@ -239,7 +240,7 @@ impl Viewed for Tagged {
 }
 // by the statement: the container's rename_all renames the variants only (Unit -> unit, VarC -> varC, VarD -> varD; VarB is
 // renamed bbbb); a variant's fields are renamed only by the variant's own rename_all (VarC: XxYy -> xxyy)
-pub static D_TAGGED: [&str; 11] = ["type", "xxxx", "xxyy", "zzzz", "unit", "bbbb", "varC", "varD", "Unit", "VarC", "XxYy"];
+pub static D_TAGGED: [&str; 11] = ["t_ag", "xxxx", "xxyy", "zzzz", "unit", "bbbb", "varC", "varD", "Unit", "VarC", "XxYy"];
 pub static S_VARB: StructDesc = StructDesc { fields: &[FieldDesc { key: 1, presence: Presence::Required, ty: FTy::Leaf, missing_fn: false, conv: Conv::None, map: None }], deny: Deny::No, validate: None };
 pub static S_VARC: StructDesc = StructDesc { fields: &[
     FieldDesc { key: 2, presence: Presence::Required, ty: FTy::Leaf, missing_fn: false, conv: Conv::None, map: None },
@@ -365,14 +366,25 @@ pub fn derive_ferr10_2() { run_struct::<Ferr10>(&S_FERR10, &D_CONV8, 2) }
 // ---- T12: internally tagged enum with deny_unknown_fields (the accepted list of a variant never contains the tag) ------
 #[derive(Deserr)]
 #[deserr(tag = "kind", deny_unknown_fields)]
-pub enum TagDeny { Unit, VarB { xxxx: Leaf }, VarE {} }
-impl Viewed for TagDeny {
-    fn slots(&self) -> [u64; MAXF] { match self { TagDeny::Unit => [1, 0, 0, 0, 0, 0], TagDeny::VarB { xxxx } => [2, lv(xxxx), 0, 0, 0, 0], TagDeny::VarE {} => [3, 0, 0, 0, 0, 0] } }
+pub enum TagDeny {
+    Unit,
+    #[deserr(rename_all = lowercase)]
+    VarB { XxXx: Leaf },
+    VarE {},
+    /// declared after a variant with its own rename_all: its field keeps its identifier as key
+    VarG { YyYy: Leaf },
 }
-pub static D_TAGDENY: [&str; 6] = ["kind", "Unit", "VarB", "VarE", "xxxx", "yyyy"];
+impl Viewed for TagDeny {
+    fn slots(&self) -> [u64; MAXF] { match self { TagDeny::Unit => [1, 0, 0, 0, 0, 0], TagDeny::VarB { XxXx } => [2, lv(XxXx), 0, 0, 0, 0], TagDeny::VarE {} => [3, 0, 0, 0, 0, 0], TagDeny::VarG { YyYy } => [4, lv(YyYy), 0, 0, 0, 0] } }
+}
+// VarB: XxXx -> xxxx (the variant's own rename_all = lowercase); VarG: YyYy stays YyYy
+pub static D_TAGDENY: [&str; 9] = ["kind", "Unit", "VarB", "VarE", "xxxx", "yyyy", "VarG", "YyYy", "XxXx"];
 pub static S_TD_B: StructDesc = StructDesc { fields: &[FieldDesc { key: 4, presence: Presence::Required, ty: FTy::Leaf, missing_fn: false, conv: Conv::None, map: None }], deny: Deny::Default, validate: None };
 pub static S_TD_E: StructDesc = StructDesc { fields: &[], deny: Deny::Default, validate: None };
-pub static E_TAGDENY: EnumDesc = EnumDesc { tag: 0, variants: &[(1, VariantDesc::Unit), (2, VariantDesc::Named(&S_TD_B)), (3, VariantDesc::Named(&S_TD_E))] };
+pub static S_TD_G: StructDesc = StructDesc { fields: &[FieldDesc { key: 7, presence: Presence::Required, ty: FTy::Leaf, missing_fn: false, conv: Conv::None, map: None }], deny: Deny::Default, validate: None };
+pub static E_TAGDENY: EnumDesc = EnumDesc { tag: 0, variants: &[(1, VariantDesc::Unit), (2, VariantDesc::Named(&S_TD_B)), (3, VariantDesc::Named(&S_TD_E)), (6, VariantDesc::Named(&S_TD_G))] };
+fn td_tag() -> Node { Node::Str([1u8, 2, 3, 6][nd::below(4) as usize]) }
+fn td_key() -> u8 { [4u8, 5, 7, 8, 0][nd::below(5) as usize] }
 fn tagdeny_run(n: u8) {
     let o = ValuePointerRef::Origin; let l = o.push_index(1);
     let p = Path::ROOT.idx(1);
@@ -383,8 +395,8 @@ fn tagdeny_run(n: u8) {
     judge(r, &ex, &p);
 }
 /// tag first / tag last, one other member (a field key, an unknown key, or the tag key again)
-pub fn derive_tagdeny_first() { reset_all(&D_TAGDENY); put_entry(0, 0, Node::Str(1 + nd::below(3))); put_entry(1, match nd::below(3) { 0 => 4, 1 => 5, _ => 0 }, any_val()); tagdeny_run(2); }
-pub fn derive_tagdeny_last() { reset_all(&D_TAGDENY); put_entry(0, match nd::below(3) { 0 => 4, 1 => 5, _ => 0 }, any_val()); put_entry(1, 0, Node::Str(1 + nd::below(3))); tagdeny_run(2); }
+pub fn derive_tagdeny_first() { reset_all(&D_TAGDENY); put_entry(0, 0, td_tag()); put_entry(1, td_key(), any_val()); tagdeny_run(2); }
+pub fn derive_tagdeny_last() { reset_all(&D_TAGDENY); put_entry(0, td_key(), any_val()); put_entry(1, 0, td_tag()); tagdeny_run(2); }
 
 
 // ---- T13: by-reference conversion functions and `map` on a required field -----------------------------------------
@@ -427,6 +439,41 @@ pub fn derive_cfrom14() {
         Node::Int(x) => { ex.counters[6] = 1; ex.view[0] = leaf_view(x) + 900; }
         _ => { ex.log.push(report(K_UNEXPECTED, p, 0, 0)); }
     }
+    judge(r, &ex, &p);
+}
+
+
+// ---- T15: user-function attributes inside a variant of a tagged enum (the same field code as for structs, reached through the enum) ----
+#[derive(Deserr)]
+#[deserr(error = Rec, tag = "kind")]
+pub enum TagFn {
+    Unit,
+    VarB {
+        #[deserr(try_from(Leaf) = conv_try -> Foreign)]
+        xxxx: Wrapped,
+        #[deserr(default, map = map_fn)]
+        yyyy: Option<Leaf>,
+    },
+}
+impl Viewed for TagFn {
+    fn slots(&self) -> [u64; MAXF] { match self { TagFn::Unit => [1, 0, 0, 0, 0, 0], TagFn::VarB { xxxx, yyyy } => [2, xxxx.0, ov(yyyy), 0, 0, 0] } }
+}
+pub static S_TF_B: StructDesc = StructDesc { fields: &[
+    FieldDesc { key: 4, presence: Presence::Required, ty: FTy::Leaf, missing_fn: false, conv: Conv::TryFrom(1), map: None },
+    FieldDesc { key: 5, presence: Presence::Default(0), ty: FTy::OptLeaf, missing_fn: false, conv: Conv::None, map: Some(2) },
+], deny: Deny::No, validate: None };
+pub static E_TAGFN: EnumDesc = EnumDesc { tag: 0, variants: &[(1, VariantDesc::Unit), (2, VariantDesc::Named(&S_TF_B))] };
+/// tag first or last, two other members (native execution only)
+pub fn derive_tagfn_3() {
+    reset_all(&D_TAGDENY);
+    let tagpos = nd::below(3);
+    let mut i = 0u8;
+    while i < 3 { if i == tagpos { put_entry(i, 0, Node::Str(1 + nd::below(2))); } else { put_entry(i, [4u8, 5, 7][nd::below(3) as usize], any_val()); } i += 1; }
+    let o = ValuePointerRef::Origin; let l = o.push_index(1);
+    let p = Path::ROOT.idx(1);
+    let r = <TagFn as Deserr<Rec>>::deserialize_from_value::<KV>(to_value(Node::Map(0, 3)), l);
+    let mut ex = Expect::EMPTY;
+    reference::enum_spec(&E_TAGFN, Node::Map(0, 3), p, &mut ex);
     judge(r, &ex, &p);
 }
 
@@ -485,14 +532,14 @@ pub fn order_camel_3() { order3_body::<Camel>(&D_CAMEL, [nd::below(6), nd::below
 pub fn order_lower_3() { order3_body::<Lower>(&D_LOWER, [nd::below(5), nd::below(5), nd::below(5)], [any_val(), any_val(), any_val()]) }
 pub fn order_deffirst_3() { order3_body::<DefFirst>(&D_DEFFIRST, [nd::below(5), nd::below(5), nd::below(5)], [any_val(), any_val(), any_val()]) }
 pub fn order_tagged_3() { order3_body::<Tagged>(&D_TAGGED, [0, any_field_key(), any_field_key()], [any_tag_val(), any_val(), any_val()]) }
-pub fn order_tagdeny_3() { order3_body::<TagDeny>(&D_TAGDENY, [0, 4, 5], [Node::Str(1 + nd::below(3)), any_val(), any_val()]) }
+pub fn order_tagdeny_3() { order3_body::<TagDeny>(&D_TAGDENY, [0, td_key(), td_key()], [td_tag(), any_val(), any_val()]) }
 
 pub fn registry() -> Vec<(&'static str, crate::Body)> {
     vec![("derive_plain_2", derive_plain_2 as crate::Body), ("derive_camel_2", derive_camel_2), ("derive_lower_2", derive_lower_2), ("derive_deny4_2", derive_deny4_2),
          ("derive_fns5_2", derive_fns5_2), ("derive_conv8_2", derive_conv8_2), ("derive_conv8_3", derive_conv8_3), ("derive_cont9", derive_cont9),
          ("derive_tagged_first", derive_tagged_first), ("derive_tagged_last", derive_tagged_last), ("derive_tagged_absent", derive_tagged_absent), ("derive_tagged_not_a_map", derive_tagged_not_a_map),
          ("derive_units", derive_units), ("derive_nest", derive_nest), ("derive_deffirst_2", derive_deffirst_2), ("derive_deffirst_3", derive_deffirst_3), ("derive_ferr10_2", derive_ferr10_2),
-         ("derive_refs13_2", derive_refs13_2), ("derive_refs13_3", derive_refs13_3), ("derive_cfrom14", derive_cfrom14), ("derive_tagdeny_first", derive_tagdeny_first), ("derive_tagdeny_last", derive_tagdeny_last), ("order_camel", order_camel), ("order_tagged", order_tagged), ("order_conv8", order_conv8),
+         ("derive_refs13_2", derive_refs13_2), ("derive_refs13_3", derive_refs13_3), ("derive_cfrom14", derive_cfrom14), ("derive_tagfn_3", derive_tagfn_3), ("derive_tagdeny_first", derive_tagdeny_first), ("derive_tagdeny_last", derive_tagdeny_last), ("order_camel", order_camel), ("order_tagged", order_tagged), ("order_conv8", order_conv8),
          ("order_camel_3", order_camel_3), ("order_lower_3", order_lower_3), ("order_deffirst_3", order_deffirst_3), ("order_tagged_3", order_tagged_3), ("order_tagdeny_3", order_tagdeny_3)]
 }
 
